@@ -2016,8 +2016,13 @@ class MainProvider(ResolverMixin, BaseProvider):
                         # Dangling reference: The associated instance has been
                         # deleted. Associators() cannot return it, so
                         # AssociatorNames() does not return it either.
-                        assoc_store = self.cimrepository.get_instance_store(
-                            prop.value.namespace or namespace)
+                        try:
+                            assoc_store = \
+                                self.cimrepository.get_instance_store(
+                                    prop.value.namespace or namespace)
+                        except KeyError:
+                            # The namespace of the reference does not exist
+                            continue
                         # (the instance store has paths without host)
                         assoc_path = prop.value.copy()
                         assoc_path.host = None
